@@ -6,6 +6,7 @@ import Mdsort.Proofs.MainText
 import Mdsort.Proofs.MainTextMacros
 import Mdsort.Proofs.MainTextLex
 import Mdsort.Proofs.MainTextLexTree
+import Mdsort.Proofs.ConfCfg2
 
 /-!
 # C14 - a configuration is accepted or rejected as a whole, and the parser is total
@@ -250,6 +251,44 @@ example : Spec.ConfOK (fun _ => true)
              (.and 1 (.leaf (.exec 1 true true [[99, 97, 116]]))
                (.attBlock 1 (.block 1 (.mtch 1 (.leaf (.old 1)) (.leaf (.exec 1 false false [[108, 112, 114]])))))))))) },
      { paths := [stdinStr], tree := .block 1 (.mtch 1 (.leaf (.command 1 [[116]])) (.leaf (.reject 1))) }] = true := by
+  decide +kernel
+
+/-! ## The grammar of parse.y itself (Gen/Grammar.lean: bison's report on the parse.y of this run)
+
+`Gen.productions` is the list of productions bison prints for the working tree's parse.y, regenerated
+before every build (tools/gen_grammar.py).  `Spec.Cfg.Tree.ok` checks a parse tree against it: every
+inner node is an instance of a production of the table, every leaf a terminal.  The proofs below end in
+facts `Gen.productions.contains ("expr3", ["HEADER", "strings", "pattern"]) = true := by decide`
+(Proofs/ConfCfg1.lean), one per production: removing or altering a production of parse.y breaks this
+file. -/
+
+/-- Every documented configuration is a sentence of the yacc grammar: for every configuration `bs` in
+`Spec.ConfOK` (the domain of `C14_accepts_grammar_partial`), `Spec.Cfg.treeOfConf bs` is a parse tree
+over the productions parse.y has NOW, its root is the start symbol, and its yield is the sequence of
+token kinds of the written form - as `Spec.printBlocks` writes it (`blockToks`) and as the lexer model
+reads it back from the bytes (`Lexes`: no diagnostic up to the end of the text, pattern / unit mode
+exactly at PATTERN / SCALAR tokens). -/
+theorem C14_printed_in_yacc_grammar (rxOk : Pat → Bool) (bs : List PBlock) (hok : Spec.ConfOK rxOk bs = true) :
+    (Spec.Cfg.treeOfConf bs).ok Gen.productions = true ∧
+    (Spec.Cfg.treeOfConf bs).root = Gen.grammarStart ∧
+    (Spec.Cfg.treeOfConf bs).yield = (bs.flatMap Spec.blockToks).map Spec.Cfg.ptokKind ∧
+    Spec.Cfg.Lexes false (Spec.printBlocks bs) (Spec.Cfg.treeOfConf bs).yield :=
+  Proofs.Cfg.printed_in_grammar rxOk bs hok
+
+/-- Non-vacuity and a look at the object: the tree of `stdin { match ! new move "d" }` is checked by
+evaluation against the regenerated table, and its yield is the token sequence one expects. -/
+example :
+    let bs : List PBlock := [{ paths := [stdinStr], tree := .block 1 (.mtch 1 (.neg 1 (.leaf (.new 1))) (.leaf (.move 1 [100]))) }]
+    Spec.ConfOK (fun _ => true) bs = true ∧ (Spec.Cfg.treeOfConf bs).ok Gen.productions = true ∧
+    (Spec.Cfg.treeOfConf bs).yield = ["STDIN", "'{'", "MATCH", "NEG", "NEW", "MOVE", "STRING", "'}'"] := by
+  decide +kernel
+
+/-- The checker is not vacuous: a tree using a production the grammar does not have (`expr3: SYNC`) is
+refused, and so is a tree whose leaf is a non-terminal. -/
+example :
+    (Spec.Cfg.N "expr3" [Spec.Cfg.T "SYNC"]).ok Gen.productions = false ∧
+    (Spec.Cfg.N "expr1" [Spec.Cfg.T "expr3"]).ok Gen.productions = false ∧
+    (Spec.Cfg.N "expr1" [Spec.Cfg.N "expr3" [Spec.Cfg.T "OLD"]]).ok Gen.productions = true := by
   decide +kernel
 
 /-! ## The whole program from the configuration TEXT (`Model.mainText`, Model/MainText.lean)
